@@ -178,7 +178,7 @@ def c07_oracle(base, spec, unedited, out):
                 return f"unit-property slot {k + 1} changed"
     if vb.swnm:
         for k, s_ in enumerate(vb.swnm):
-            if s_ and vb.switch(k)[1] != vo.switch(k)[1]:
+            if s_ and vb.switch(k)[1] and vb.switch(k)[1] != vo.switch(k)[1]:
                 return f"switch {k} name {vb.switch(k)[1]!r} -> {vo.switch(k)[1]!r}"
     wb, wo = vb.by_name.get(b"WAV "), vo.by_name.get(b"WAV ")
     if wb and wo:
